@@ -12,15 +12,15 @@ import (
 
 func init() {
 	register(&Check{
-		ID:   "C07",
-		Rule: "E1: for every year in the year set, NewSolar on month -1..14 x day -1..33 (+ hour/minute/second edge values on one valid and one invalid day per month) against R1 validity; NewLunar/NewLunarTime/NewTao/NewFoto on month -12..13 x day 0..31 against the image set of the civil sweep of the neighbouring civil years; E2: breadth-first search over chains of stepping/conversion calls from seed dates, de-duplicated on (type,y,m,d,h,mi,s), validity invariant on every produced object. non-trivial = argument tuples within one unit of a validity boundary, and BFS transitions that change the month",
+		ID:     "C07",
+		Rule:   "E1: for every year in the year set, NewSolar on month -1..14 x day -1..33 (+ hour/minute/second edge values on one valid and one invalid day per month) against R1 validity; NewLunar/NewLunarTime/NewTao/NewFoto on month -12..13 x day 0..31 against the image set of the civil sweep of the neighbouring civil years; E2: breadth-first search over chains of stepping/conversion calls from seed dates, de-duplicated on (type,y,m,d,h,mi,s), validity invariant on every produced object. non-trivial = argument tuples within one unit of a validity boundary, and BFS transitions that change the month",
 		Assume: []string{"R1 validity predicate", "lunar image set is taken from Solar.GetLunar over every civil day of years Y-1..Y+1 (that this map is a bijection is C01's job)"},
 		Shards: func(tier string, seed int64) []Shard {
 			sh := yearShards(tier, seed, 9998, "box")
 			sh = append(sh, Shard{Kind: "chains", Tier: tier, Seed: seed})
 			return sh
 		},
-		Run:    runC07,
+		Run:           runC07,
 		MinNontrivial: 100,
 	})
 }
@@ -148,10 +148,10 @@ func c07Year(w *W, y int) {
 				for _, t := range [][3]int{{24, 0, 0}, {-1, 0, 0}, {0, 60, 0}, {0, 0, 60}, {0, -1, 0}, {0, 0, -1}, {23, 59, 59}} {
 					ok := t[0] >= 0 && t[0] < 24 && t[1] >= 0 && t[1] < 60 && t[2] >= 0 && t[2] < 60
 					for name, f := range map[string]func(){
-						"NewLunar": func() { calendar.NewLunar(y, m, d, t[0], t[1], t[2]) },
+						"NewLunar":     func() { calendar.NewLunar(y, m, d, t[0], t[1], t[2]) },
 						"NewLunarTime": func() { calendar.NewLunarTime(y, m, d, t[0], t[1], t[2]) },
-						"NewTao":   func() { calendar.NewTao(y+2697, m, d, t[0], t[1], t[2]) },
-						"NewFoto":  func() { calendar.NewFoto(y+544, m, d, t[0], t[1], t[2]) },
+						"NewTao":       func() { calendar.NewTao(y+2697, m, d, t[0], t[1], t[2]) },
+						"NewFoto":      func() { calendar.NewFoto(y+544, m, d, t[0], t[1], t[2]) },
 					} {
 						_, pt := try(f)
 						w.R.Evals++
